@@ -349,7 +349,9 @@ IsViolation(v) == v \in {"signed_must_refuse", "bad_signature_target", "not_mark
 (*  hist  how far the channel got: "fresh" no commitment, "noC" only the    *)
 (*        holder's initial commitment, "noH" only the counterparty's,       *)
 (*        "init" both initial commitments, "upd" one update on each side    *)
-(*        (the initial contents differ from the current ones)               *)
+(*        (the initial contents differ from the current ones), "updp" the   *)
+(*        same but the counterparty has not yet revoked its initial         *)
+(*        commitment (the signer still holds it as the previous one)        *)
 (*  nb    balance of the non-fee-paying side in the holder's commitment:    *)
 (*        "typ", "small" (within epsilon of nothing, or just above dust if  *)
 (*        epsilon is below dust), "zero"                                    *)
@@ -379,7 +381,7 @@ SkewOf(s) == LET e == Pol(s.pol).eps IN
                [] s.skew = "2e" -> 2 * e [] s.skew = "2e1" -> 2 * e + 1
 NbC(s) == NbH(s) + SkewOf(s)
 HtlcsIn(s, side) == IF s.htlc = "both" \/ s.htlc = side THEN 1 ELSE 0
-HasBoth(s) == s.hist \in {"init", "upd"}
+HasBoth(s) == s.hist \in {"init", "upd", "updp"}
 
 \* content of a commitment: [h to holder, c to counterparty, n #HTLCs] (Big amounts)
 Content(s, nb, n) ==
@@ -400,7 +402,7 @@ ValidState(s) ==
 GoodState(dir, pol) == [dir |-> dir, pol |-> pol, mag |-> "n", hist |-> "upd", nb |-> "typ", skew |-> "0",
                         htlc |-> "none", upfront |-> "none", pre |-> "none"]
 StateDom(f) == CASE f = "mag" -> {"n", "g", "a"}
-                 [] f = "hist" -> {"fresh", "noC", "noH", "init", "upd"}
+                 [] f = "hist" -> {"fresh", "noC", "noH", "init", "upd", "updp"}
                  [] f = "nb" -> {"typ", "small", "zero"}
                  [] f = "skew" -> {"0", "e", "-e", "2e", "2e1"}
                  [] f = "htlc" -> {"none", "H", "C", "both"}
@@ -433,7 +435,8 @@ WorldOf(s, allow) ==
 (*  allow  allowlist entry names present when the close is signed           *)
 (*  d      value of the non-fee-paying side = its balance in the holder's   *)
 (*         commitment + d:  "0", "e", "e1" (eps+1), "-e", "-e1", "mid"      *)
-(*         (half the skew), "absent" (no output)                            *)
+(*         (half the skew), "absent" (no output), "stale" (its balance in   *)
+(*         the INITIAL commitments instead)                                 *)
 (*  fee    "typ"; "zero"; "lo_must" largest fee the reference must refuse   *)
 (*         as too low; "lo_rej"/"lo_ok" the code's own lower edge;          *)
 (*         "hi_ok"/"hi_rej" the code's upper edge; "hi_must" smallest fee   *)
@@ -460,7 +463,7 @@ GoodReq(s, entry) ==
    cscr |-> "C1", order |-> "canon", hintpos |-> "h", form |-> "ok", hopt |-> "some", copt |-> "some"]
 ReqDom(f, entry) ==
   CASE f = "allow" -> SUBSET {"S1", "X"}
-    [] f = "d" -> {"0", "e", "e1", "-e", "-e1", "mid", "absent"}
+    [] f = "d" -> {"0", "e", "e1", "-e", "-e1", "mid", "absent", "stale"}
     [] f = "fee" -> {"typ", "zero", "lo_must", "lo_rej", "lo_ok", "hi_ok", "hi_rej", "hi_must", "half", "all",
                      "neg1", "top", "wrap32", "wrap64"}
     [] f = "hscr" -> {"W7n", "W7w", "W7t", "S1", "X5", "F", "Fs"}
@@ -481,6 +484,7 @@ ReqsWithin(R, k) == IF k = 0 THEN R ELSE ReqsWithin(Dev1Reqs(R), k - 1)
 DOf(s, r) == LET e == Pol(s.pol).eps IN
              CASE r.d = "0" -> 0 [] r.d = "e" -> e [] r.d = "e1" -> e + 1 [] r.d = "-e" -> 0 - e
                [] r.d = "-e1" -> 0 - e - 1 [] r.d = "mid" -> SkewOf(s) \div 2 [] r.d = "absent" -> 0 - NbH(s)
+               [] r.d = "stale" -> NB0 - NbH(s)
 \* the balance the request is built around (there is none before both commitments exist)
 NbBase(s) == IF HasBoth(s) THEN NbH(s) ELSE NB0
 NvOf(s, r) == IF r.d = "absent" THEN 0 ELSE NbBase(s) + DOf(s, r)        \* small integer, may be < 0: invalid
@@ -542,6 +546,7 @@ PlausibleReq(s, r) ==
   /\ (r.fee = "wrap32" => s.mag \in {"g", "a"})
   /\ (r.fee = "wrap64" => s.mag = "a")
   /\ (r.d = "mid" => SkewOf(s) # 0)
+  /\ (r.d = "stale" => s.hist \in {"upd", "updp"})
   /\ (r.entry = "p1" /\ r.order = "swap" => r.form = "ok")
   /\ NvOf(s, r) >= 0
 ValidReq(s, r) == PlausibleReq(s, r) /\ ValuesOf(s, r).ok
